@@ -49,6 +49,9 @@ var replacements = map[string]string{
 	"(github.com/cosmos/cosmos-sdk/x/staking/keeper.Keeper).Validator":                        "SKValidator",
 	"(github.com/cosmos/cosmos-sdk/x/staking/keeper.Keeper).IterateLastValidators":            "SKIterateLastValidators",
 	"(github.com/cosmos/cosmos-sdk/x/distribution/keeper.Querier).DelegationTotalRewards":     "DKDelegationTotalRewards",
+	"(github.com/cosmos/cosmos-sdk/x/distribution/keeper.Querier).DelegationRewards":          "DKDelegationRewards",
+	"(github.com/cosmos/cosmos-sdk/x/staking/keeper.Keeper).GetDelegation":                    "SKGetDelegation",
+	"(github.com/cosmos/cosmos-sdk/x/staking/keeper.Keeper).GetDelegatorBonded":               "SKGetDelegatorBonded",
 	"github.com/cosmos/cosmos-sdk/types.ParseCoinsNormalized":                                 "ParseCoinsNormalized",
 	"encoding/json.Marshal":                                                                    "JsonMarshal",
 	"github.com/EscanBE/evermint/v12/x/cpc/eip712.VerifySignature":                            "Eip712VerifySignature",
